@@ -629,6 +629,7 @@ class Engine:
         self.stats = Stats()
         self.cex = []
         self.stop_on_cex = True
+        self.failed_labels = set()
         self.fork_abs = False  # abs() as an If-term (False) or as a fork (True: simpler NRA queries)
         self._reset_path([])
 
@@ -772,6 +773,8 @@ class Engine:
     # -- obligations
     def prove(self, phi, label, detail=None):
         """Proof obligation under the current path condition."""
+        if label in self.failed_labels:
+            return False  # already refuted on an earlier path: one counterexample per obligation label
         self.stats.obligations += 1
         self.stats.labels.add(label)
         if isinstance(phi, numpy.ndarray) and phi.ndim == 0:
@@ -806,6 +809,7 @@ class Engine:
             return True
         inputs = {name: model_value(m, tt) for name, tt in self.inputs.items()}
         self.cex.append(Counterexample(label, m, inputs, detail))
+        self.failed_labels.add(label)
         return False
 
     def prove_eq(self, a, b, label, detail=None):
